@@ -8,7 +8,7 @@ import string
 
 from ..oracles import decoders
 
-CLASSES = ["text", "numeric", "hex", "type7", "md5", "sha512", "j9"]
+CLASSES = ["text", "numeric", "hex", "type7", "md5", "sha512", "j9", "j9bad"]
 ALL = list(CLASSES)
 NOHASH = ["text", "numeric", "hex", "type7"]
 
@@ -22,8 +22,19 @@ def _rand(rng, alpha, lo, hi):
     return "".join(rng.choice(alpha) for _ in range(rng.randint(lo, hi)))
 
 
-def gen_secret(rng, cls, plain_alpha=False, allow_all_digit_type7=False):
+def gen_secret(rng, cls, plain_alpha=False, allow_all_digit_type7=False, reserved_variants=False):
     """Return {"cls","text","cores","plain"?,"sub"?}.  Every value carries a high-entropy core."""
+    if cls == "text" and reserved_variants and rng.random() < 0.12:
+        # a case variant of a built-in reserved word that is not itself reserved (low entropy: no core search)
+        from .. import load
+
+        res = load.nc().rw.default_reserved_words
+        cand = sorted(w for w in res if w.isalpha() and len(w) >= 4)
+        for _ in range(20):
+            w = rng.choice(cand)
+            v = rng.choice([w.capitalize(), w.upper(), w[:-1] + w[-1].upper()])
+            if v not in res and v.lower() in res:
+                return {"cls": cls, "text": v, "cores": [], "sub": "reserved-case-variant"}
     if cls == "text":
         alpha = _TEXT_ALPHA_PLAIN if plain_alpha else _TEXT_ALPHA
         while True:
@@ -58,6 +69,14 @@ def gen_secret(rng, cls, plain_alpha=False, allow_all_digit_type7=False):
         h = _rand(rng, _H64, 86, 86)
         rounds = "rounds=%d$" % rng.randint(1000, 99999) if rng.random() < 0.25 else ""
         return {"cls": cls, "text": "$6$%s%s$%s" % (rounds, salt, h), "cores": [h, salt], "sub": "rounds" if rounds else "plain"}
+    if cls == "j9bad":
+        # "$9$"-prefixed value the $9$ grammar rejects (foreign character / too short for its salt)
+        body = _rand(rng, decoders.J9_ALPHABET, 8, 24)
+        j = rng.randrange(1, len(body))
+        body = body[:j] + rng.choice("_!@#%^&*+=~") + body[j:]
+        s = "$9$" + body
+        assert decoders.j9_decode(s) is None
+        return {"cls": cls, "text": s, "cores": [s, body], "sub": "foreign-char"}
     if cls == "j9":
         plain = rng.choice(_NONHEX) + _rand(rng, string.ascii_letters + string.digits + "!@#%^&*_+-=", 7, 18)
         return {"cls": cls, "plain": plain, "text": None, "cores": [plain]}
@@ -222,7 +241,7 @@ CATALOGUE = [
     F("junos-psk-hexadecimal", "set security ike policy {u} pre-shared-key hexadecimal {s0}", quote=False),
     F("junos-license-key", "set system license keys key \"{s0}\"", quote=False),
     # --- SNMP communities
-    F("snmp-community-ro", "snmp-server community {s0} ro {n}", NOHASH + ["md5", "j9"]),
+    F("snmp-community-ro", "snmp-server community {s0} ro {n}", NOHASH + ["md5", "j9", "j9bad"]),
     F("snmp-community-rw", "snmp-server community {s0} RW {n}"),
     F("snmp-community-word", "snmp-server community {s0} {u}"),
     F("snmp-community-0", "snmp-server community 0 {s0} ro"),
@@ -243,8 +262,8 @@ CATALOGUE = [
     F("set-community-text", "set community {s0}", ["text", "hex"], trail=("", "trailing text")),
     F("key-hash-sha256", "key-hash sha256 {s0}"),
     # --- hash-shaped token that is the only secret on its line, arbitrary surrounding keywords
-    F("catchall-mistyped-keyword", "set system login user {u} authenitcation \"{s0}\"", ["md5", "j9"], quote=False),
-    F("catchall-benign-context", "{u} {u} {s0} {u}", ["md5", "j9"], quote=False),
+    F("catchall-mistyped-keyword", "set system login user {u} authenitcation \"{s0}\"", ["md5", "j9", "j9bad"], quote=False),
+    F("catchall-benign-context", "{u} {u} {s0} {u}", ["md5", "j9", "j9bad"], quote=False),
     F("catchall-quoted", "{u} \"{s0}\";", ["md5", "j9"], quote=False),
     F("catchall-line-start", "{s0}", ["md5", "j9"], quote=False),
     # --- forms named in the property's rationale / found leaking during reconnaissance
